@@ -6,6 +6,6 @@ T=$(mktemp -d /tmp/avfs-variant-XXXX)
 rsync -a --exclude .git /repo/ "$T/"
 ( cd "$T" && git apply --whitespace=nowarn "$P" ) || { echo "PATCH DOES NOT APPLY"; rm -rf "$T"; exit 3; }
 for prop in "$@"; do
-  cp /verif/known_findings.jsonl /tmp/vtest/ 2>/dev/null; /verif/tool/avfslint -property "$prop" -repo "$T" -verif /tmp/vtest 2>&1 | grep -v "^KNOWN-FINDING\|^  C[0-9][0-9]\.\|VIOLATION" | sed "s#$T/##"
+  cp /verif/known_findings.jsonl /tmp/vtest/ 2>/dev/null; ${AVFSLINT:-/verif/tool/avfslint} -property "$prop" -repo "$T" -verif /tmp/vtest 2>&1 | grep -v "^KNOWN-FINDING\|^  C[0-9][0-9]\.\|VIOLATION" | sed "s#$T/##"
 done
 rm -rf "$T"
